@@ -76,6 +76,9 @@ def make_doc(style, tset="A"):
     if style == "variant":
         return Doc([Op("query", "Op", [Field("i", [TN(), Inline("T", [F(f, tset=tset) for f in fs] + [Field("keep")])])])]), "OpIOnT", {f: f for f in fs}, ["i"]
     gs = ["g%d" % i for i in range(4)]
+    if style == "object_copy":
+        # the implementing object's own declarations of the interface's fields (never deprecated on the object)
+        return Doc([Op("query", "Op", [Field("t", [F(g, tset=tset) for g in gs] + [Field("keep")])])]), "OpT", {("f%d" % i): gs[i] for i in range(4)}, ["t"]
     return Doc([Op("query", "Op", [Field("i", [TN()] + [F(g, tset=tset) for g in gs])])]), "OpI", {("f%d" % i): gs[i] for i in range(4)}, ["i"]
 
 
@@ -140,6 +143,11 @@ def run(tier):
             for style in ("direct", "fragment", "variant"):
                 for strat in ("warn", "deny"):
                     cases.append({"assign": assign, "fmt": fmt, "style": style, "strategy": strat, "shift": sum(assign) % 4, "tset": "B"})
+    # the object's own (current) declarations of fields the interface deprecates
+    for assign in itertools.product((0, 1, 2), repeat=4):
+        for fmt in ("sdl", "json"):
+            for strat in ("warn", "deny"):
+                cases.append({"assign": assign, "fmt": fmt, "style": "object_copy", "strategy": strat, "shift": sum(assign) % 4})
     # the same fields declared in an `extend type` block (SDL only)
     for assign in itertools.product((0, 1, 2), repeat=4):
         for style in ("direct", "fragment", "variant"):
@@ -161,7 +169,7 @@ def run(tier):
     reqs = []
     for c in cases:
         schema, deps = make_schema(c["assign"], c["shift"], c.get("tset", "A"), extend=c["fmt"] == "sdl_ext")
-        c["deps"] = deps
+        c["deps"] = deps if c["style"] != "object_copy" else [None] * 4
         doc, holder, wires, path = make_doc(c["style"], c.get("tset", "A"))
         c["doc"], c["holder"], c["wires"], c["path"] = doc, holder, wires, path
         text = schema.sdl() if c["fmt"] in ("sdl", "sdl_ext") else schema.introspection()
